@@ -43,7 +43,44 @@ def c16_d(ctx):
             count = [x for x in nodes if x[0] == "proj" and x[3] == "usize" and any(re.search(r"::(recv_from|recv)(::\{closure#0\})?$", callee_name(c) or "") for c in calls_in(x))]
             key = "%s->PDU::decode" % short(f.root or f.norm)
             if recv and count:
-                yield ok("C16-D", key, at(f, t["span"]["line"]), {"decoder_input": expr_str(e[3][0])[:300], "count": expr_str(count[0])[:200]})
+                # the window handed to the decoder must be bounded above by the count itself
+                from common import simp, sstr
+
+                ebu = ExprBuilder(ctx.prog, f, user_stop=True)
+                win = simp(ebu.call(b, t)[3][0])
+                bound = None
+                for x in walk(win):
+                    if x[0] == "agg" and x[2].endswith(("ops::RangeTo", "ops::Range", "ops::RangeToInclusive")) and x[5]:
+                        bound = x[5][-1]
+                    elif x[0] == "call" and (callee_name(x) or "").split("::")[-1] in ("take", "split_at", "truncate") and len(x[3]) > 1:
+                        bound = x[3][1]
+                cnt_names = set()
+                for vn, l, pj in f.var_places:
+                    if not pj and f.locals[l]["ty"] == "usize":
+                        ebfull = ExprBuilder(ctx.prog, f)
+                        ds = [sstr(d) for d in ebfull.var_defs(vn)]
+                        for _ in range(4):
+                            nxt = []
+                            for d in ds:
+                                m = re.match(r"^(\w+)((\.\d+)*)$", d)
+                                if m and m.group(1) != vn:
+                                    nxt.extend(sstr(x) + m.group(2) for x in ebfull.var_defs(m.group(1)))
+                                else:
+                                    nxt.append(d)
+                            ds = nxt
+                        if ds and all(re.search(r"(recv_from|::recv|peek_from)\(.*\)\.0$", d) for d in ds):
+                            cnt_names.add(vn)
+                bt = expr_str(simp(bound)) if bound is not None else None
+                okb = False
+                if bt is not None:
+                    if bt in cnt_names:
+                        okb = True
+                    elif bound[0] == "call" and (callee_name(bound) or "").split("::")[-1] == "min" and any(expr_str(simp(a)) in cnt_names for a in bound[3]):
+                        okb = True
+                if okb:
+                    yield ok("C16-D", key, at(f, t["span"]["line"]), {"decoder_input": expr_str(win)[:200], "bound": bt})
+                else:
+                    yield bad("C16-D", key, at(f, t["span"]["line"]), "the window handed to the decoder ends at %s, which is not the received byte count (or a minimum with it): bytes left by an earlier datagram can be decoded" % (bt or expr_str(win)[:160]))
             else:
                 yield bad("C16-D", key, at(f, t["span"]["line"]), "the decoder's input %s does not depend on the byte count returned by the socket receive (stale buffer bytes can complete a truncated datagram)" % expr_str(e[3][0])[:200])
     if n == 0:
